@@ -16,7 +16,7 @@ RULE = (
     "Non-trivial = at least one retransmission or fault or decoy happened; distinct = distinct cell tuples"
 )
 ASSUMPTIONS = ["datagram latency in the simulation is 1 ms each way", "random.uniform is the source of the initial timeout (seeded per case)"]
-REQUIRED_MONITORS = {"schedule": 200, "bytes_identical": 200, "stop_after_ack": 100, "giveup": 30, "decoy_no_effect": 50, "server_con_response": 20}
+REQUIRED_MONITORS = {"schedule": 200, "bytes_identical": 200, "stop_after_ack": 100, "giveup": 30, "decoy_no_effect": 50, "server_con_response": 20, "refused_copy": 20}
 EXHAUSTIVE = {"grid": "tunings x all loss subsets for MAX_RETRANSMIT<=4 x ack kinds x trigger transmission x delay classes x decoys (split over shards)"}
 
 TUNINGS = [
@@ -397,6 +397,16 @@ def run_shard(shard, rep, only=None):
         if only is not None and only != case:
             continue
         _client(cell, shard["seed"] * 100003 + 50000 + j, rep, case)
+    # the operating system refuses copy k
+    rc_cases = [(tun, k) for tun in TUNINGS + TUNINGS_SAMPLED for k in range(tun[2] + 1)]
+    for j, (tun, k) in enumerate(rc_cases):
+        if j % of != idx:
+            continue
+        for rp in range(1 if tier == "quick" else 20):
+            case = ["refused", j, rp]
+            if only is not None and only != case:
+                continue
+            run_refused_copy_case(tun, k, shard["seed"] * 100003 + 90000 + j * 37 + rp, rep, case)
     # server-side CON responses
     srv_cases = []
     for tun in [(2.0, 1.5, 4), (0.5, 3.0, 1), (0.7, 2.0, 3)]:
@@ -415,6 +425,102 @@ def run_shard(shard, rep, only=None):
         if only is not None and only != case:
             continue
         run_server_case(tun, lost, ack_at, custom, shard["seed"] * 100003 + 70000 + j, rep, case)
+
+
+def run_refused_copy_case(tun, k, seed, rep, case):
+    """The operating system refuses copy number k (k = 0: the first transmission) right in the send call (the route
+    to the peer is gone): the request fails with a network error in that instant, nothing further is transmitted
+    for it, and a later request to the same peer (route back) runs its own, unburdened schedule."""
+    from harness import scenario, simnet, refcodec as rc
+    import asyncio
+    import aiocoap
+    from aiocoap import error
+
+    at, arf, mr = tun
+    S = simnet.addr("10.0.0.1", 5683)
+    obs = {}
+
+    async def main(loop):
+        net = simnet.SimNet(loop)
+        simnet.RawPeer(net, "10.0.0.1", 5683)  # silent
+        cli = await simnet.make_context(net, "10.0.0.2", 40001, None, server=False)
+        t0 = loop.time()
+        if k == 0:
+            net.unreachable[S] = 101
+        r = cli.request(aiocoap.Message(code=aiocoap.GET, uri="coap://10.0.0.1/x", transport_tuning=mk_tuning(at, arf, mr)), handle_blockwise=False)
+        done = {}
+        r.response.add_done_callback(lambda f: done.setdefault("t", loop.time()))
+
+        def watch():
+            # cut the route right after copy k-1 went out
+            n = len([e for e in net.log if e.kind == "send" and e.dst == S])
+            if n >= k and S not in net.unreachable and "cut" not in done:
+                done["cut"] = loop.time()
+                net.unreachable[S] = 101
+            elif "cut" not in done:
+                loop.call_later(0.01, watch)
+
+        if k > 0:
+            watch()
+        try:
+            await r.response
+            outcome = ("response", None)
+        except BaseException as e:
+            outcome = ("exception", e)
+        t_fail = done.get("t")
+        net.unreachable.pop(S, None)
+        # a later request to the same peer: full schedule of its own
+        r2 = cli.request(aiocoap.Message(code=aiocoap.GET, uri="coap://10.0.0.1/y", transport_tuning=mk_tuning(at, arf, mr)), handle_blockwise=False)
+        t2 = loop.time()
+        try:
+            await r2.response
+            out2 = ("response", None)
+        except BaseException as e:
+            out2 = ("exception", e)
+        t2_done = loop.time()
+        await asyncio.sleep(at * arf * (2 ** (mr + 2)) + 5)
+        mm = cli.request_interfaces[0].token_interface
+        obs.update(net=net, outcome=outcome, t_fail=t_fail, out2=out2, t2=t2, t2_done=t2_done, open_exchanges=len(mm._active_exchanges or {}), backlogs=len(mm._backlogs or {}))
+        await cli.shutdown()
+        return True
+
+    res = scenario.run(main, seed)
+    if not res.ok:
+        if res.horizon:
+            rep.inconc("virtual horizon exceeded in refused-copy case")
+        else:
+            rep.violation("refused-copy/scenario-failed", "scenario did not complete: hang=%r error=%r" % (res.hang, res.error), {"tuning": tun, "k": k}, case)
+        return
+    net = obs["net"]
+    rep.monitor("refused_copy")
+    log = [e for e in net.log if e.dst == S and e.msg is not None and rc.is_request(e.msg.code)]
+    first = {}
+    for e in log:
+        first.setdefault(e.msg.mid, []).append(e)
+    mids = list(first)
+    w = lambda **kw: dict(tuning=tun, k=k, wire=[(round(e.t, 6), e.kind, e.msg.mid) for e in log], outcome=repr(obs["outcome"]), later=repr(obs["out2"]), **kw)
+    a = first[mids[0]] if mids else []
+    refused = [e for e in a if e.kind == "senderror"]
+    if not refused:
+        rep.inconc("refused-copy: the send was never refused (k=%d)" % k)
+        return
+    t_ref = refused[0].t
+    if obs["outcome"][0] != "exception" or not isinstance(obs["outcome"][1], error.NetworkError) or abs(obs["t_fail"] - t_ref) > 1e-6:
+        rep.violation("refused-copy/request-not-failed-at-refusal", "the request did not fail with a network error in the instant the operating system refused a copy of its message", w(t_refused=t_ref, t_fail=obs["t_fail"]), case)
+        return
+    after = [e for e in a if e.t > t_ref + 1e-9]
+    if after:
+        rep.violation("refused-copy/copy-sent-after-failure", "a further copy of the message was transmitted after its request had failed with the transport's error", w(t_refused=t_ref), case)
+        return
+    b = first[mids[1]] if len(mids) > 1 else []
+    if len([e for e in b if e.kind == "send"]) != 1 + mr or obs["out2"][0] != "exception" or not isinstance(obs["out2"][1], error.NetworkError):
+        rep.violation("refused-copy/later-request-disturbed", "a later request to the same peer did not run its own full schedule (1+MAX_RETRANSMIT copies, then a timeout-class error)", w(), case)
+        return
+    if obs["open_exchanges"] or obs["backlogs"]:
+        rep.violation("refused-copy/exchange-left-open", "exchange state for the peer survived the failure and the time-out of all requests to it", w(open_exchanges=obs["open_exchanges"], backlogs=obs["backlogs"]), case)
+    if res.loop_exceptions:
+        rep.violation("refused-copy/loop-exception/" + str(res.loop_exceptions[0].get("exc_type")), "an exception reached the event loop", w(loop=res.loop_exceptions[:2]), case)
+    rep.case(("refused-copy", tun, k), nontrivial=True)
 
 
 def _client(cell, seed, rep, case):
